@@ -1,6 +1,6 @@
 """C05 - A rejected command has no effect (E1)."""
 
-from ._base import BuilderSystem, run_configs, replay_history, with_debug_logging
+from ._base import BuilderSystem, run_configs, replay_history, with_debug_logging, with_bystander
 from ..harness import pt, Recorder
 from ..common import rf, import_gscrib
 
@@ -60,6 +60,8 @@ class FlagHook:
 
 
 class C05System(BuilderSystem):
+    deep = True
+
     def __init__(self, label, bounded, hooks=False, box=((0, 0, -1), (4, 4, 1))):
         self.label = label
         self.bounded = bounded
@@ -217,7 +219,7 @@ ASSUMPTIONS = ["multi-statement calls (tracer shapes, emergency_halt) and wrong 
 def systems(tier):
     d = 2 if tier == "quick" else 3
     return [("bounded", C05System("bounded", True), d, None), ("unbounded-debug-logging", with_debug_logging(C05System("unbounded-debug-logging", False)), d, None),
-            ("bounded-hooks", C05System("bounded-hooks", True, hooks=True), d, None),
+            ("bounded-hooks-bystander", with_bystander(C05System("bounded-hooks-bystander", True, hooks=True)), d, None),
             ("bounded-box-excludes-zero", C05System("bounded-box-excludes-zero", True, box=((1, 1, 0.5), (4, 4, 1))), d, None)]
 
 
